@@ -58,6 +58,14 @@ func (m *Monitor) fail(s *apphist.Sim, prop, kind, detail string) {
 
 func (m *Monitor) ok(name string) { m.Checks[name]++ }
 
+// Report lets the stream driver file a finding of a probe that is not tied to one ABCI call (vm_call probes).
+func (m *Monitor) Report(s *apphist.Sim, prop, kind, detail, check string) {
+	if kind != "" {
+		m.fail(s, prop, kind, detail)
+	}
+	m.ok(check)
+}
+
 func short(s string, n int) string {
 	if len(s) > n {
 		return s[:n] + "..."
